@@ -79,6 +79,10 @@ pub struct Digest<'a> {
 }
 
 pub fn op_of<'s>(scn: &'s Scenario, th: u32, ix: u32) -> Option<&'s Op> {
+    if th >= 2000 {
+        // operation issued from inside on_unsubscribe of subscriber (th - 2000)
+        return scn.subs.iter().find(|x| x.id == th - 2000).and_then(|x| x.on_unsub_ops.get(ix as usize));
+    }
     if th >= 1000 {
         // operation issued from inside effect (th - 1000)
         let id = th - 1000;
